@@ -11,3 +11,32 @@ type (
 	Once      = mc.Once
 	WaitGroup = mc.WaitGroup
 )
+
+// Pool replaces sync.Pool with the most adversarial legal behaviour, deterministically: one shared
+// free list, Get returns the object that was Put most recently (the real pool may hand any pooled
+// object to any goroutine; which one is otherwise an uncontrolled source of nondeterminism).
+// Get and Put are scheduling points.
+type Pool struct {
+	New  func() any
+	free []any
+}
+
+func (p *Pool) Get() any {
+	mc.Yield()
+	if n := len(p.free); n > 0 {
+		x := p.free[n-1]
+		p.free = p.free[:n-1]
+		return x
+	}
+	if p.New != nil {
+		return p.New()
+	}
+	return nil
+}
+
+func (p *Pool) Put(x any) {
+	mc.Yield()
+	p.free = append(p.free, x)
+}
+
+// Map is not provided: a use of sync.Map fails the instrumented build loudly (INFRA-ERROR).
